@@ -18,6 +18,21 @@ TWINS = [[2, Real.of(2.0)], [Fraction(1, 2), Real.of(0.5)], [Fraction(2, 3), Fra
          [0, Real.of(0.0)], [Fraction(-2, 3), Fraction(-3, 2)], [Real.of(1.5), Fraction(3, 2)], [1, Real.of(1.0)], [Fraction(-1, 2), Fraction(1, 2)]]
 
 
+# data of different kinds that are spelled or printed alike
+LOOKALIKE = [[S("a"), "a", Char("a")], [S("b"), "b", Char("b")], [S("x"), "x"], [1, "1", Char("1")], [S("t"), True, "t"], [[], "()"], [S("s"), "s"], [0, False, "0"], [S("nil"), [], "nil"]]
+# procedures of the list library (written in Scheme, many with the same parameter list) and natives: all behave differently, so no two are eqv?
+PROCS = ["cadr", "caar", "cddr", "cdar", "caddr", "cdddr", "list-tail", "list-ref", "map", "for-each", "fold-left", "fold-right", "append", "memq", "memv", "last-pair", "equal?",
+         "list?", "make-list", "car", "cdr", "cons", "null?", "pair?", "list"]
+
+
+def lookalike_of(x, rng):
+    fam = [f for f in LOOKALIKE if any(type(y) == type(x) and y == x for y in f)]
+    if not fam:
+        return None
+    others = [y for y in rng.choice(fam) if not (type(y) == type(x) and y == x)]
+    return rng.choice(others) if others else None
+
+
 def twin_of(x, rng):
     fam = [f for f in TWINS if any(type(y) == type(x) and (y.bits == x.bits if isinstance(y, Real) else y == x) for y in f)]
     if not fam:
@@ -36,6 +51,8 @@ class Gen:
         r = self.rng
         if r.random() < 0.12:
             return r.choice(r.choice(TWINS))
+        if r.random() < 0.1:
+            return r.choice(r.choice(LOOKALIKE))
         return r.choice([r.randint(-3, 9), r.randint(-3, 9), S(r.choice("abcxyz")), r.random() < 0.5, Char(r.choice("abc")), r.choice(["s", "t", ""])])
 
     def datum(self, depth, maxlen=12, improper=0.0):
@@ -126,12 +143,32 @@ class Gen:
         if p in ("memq", "memv"):
             l = [r.choice([1, 2, 3, S("a"), S("b"), True, False, Char("a")]) for _ in range(r.randint(0, 8))]
             x = r.choice(l) if l and r.random() < 0.7 else r.choice([9, S("z"), False])
+            if r.random() < 0.15:
+                # the key among data that are spelled like it but of another kind
+                fam = r.choice(LOOKALIKE)
+                x = r.choice(fam)
+                l = [r.choice(fam + [S("z"), 5]) for _ in range(r.randint(0, 6))]
+                if isinstance(x, str):
+                    l = [y for y in l if not (isinstance(y, str) and y == x)]      # eqv? of two equal string literals is unspecified in R7RS: keep that out
+                return [S(p), q(x), q(l)]
+            if r.random() < 0.15:
+                # procedures as data: the result is looked at through its position only (procedures do not print)
+                ps = [S(n) for n in r.sample(PROCS, r.randint(2, 6))]
+                key = r.choice(ps + [S(r.choice(PROCS))])
+                return [[S("lambda"), [S("r")], [S("if"), S("r"), [S("list"), [S("null?"), [S("cdr"), S("r")]], [S("pair?"), [S("cdr"), S("r")]], [S("eqv?"), [S("car"), S("r")], key]], q(S("absent"))]],
+                        [S(p), key, [S("list")] + ps]]
             if p == "memv" and r.random() < 0.35:
                 # numbers: memv compares exactness and value; the list holds twins of the key in front of it
                 fam = r.choice(TWINS)
                 x = r.choice(fam)
                 l = [r.choice(fam + [S("a"), 5]) for _ in range(r.randint(0, 6))]
             return [S(p), q(x), q(l)]
+        if p == "equal?" and r.random() < 0.12:
+            ps = [r.choice(PROCS) for _ in range(r.randint(1, 4))]
+            qs = list(ps)
+            if r.random() < 0.6:
+                qs[r.randrange(len(qs))] = r.choice(PROCS)
+            return [S("equal?"), [S("list"), 1] + [S(n) for n in ps], [S("list"), 1] + [S(n) for n in qs]]
         if p == "equal?":
             a = self.datum(3, improper=0.2)
             b = a if r.random() < 0.5 else self.mutate(a)
@@ -158,8 +195,11 @@ class Gen:
             return Dot(d.items, self.atom()) if r.random() < 0.5 else list(d.items)
         if isinstance(d, (int, Fraction, Real)) and not isinstance(d, bool):
             t = twin_of(d, r)
-            if t is not None and r.random() < 0.7:
+            if t is not None and r.random() < 0.5:
                 return t
+        t = lookalike_of(d, r)
+        if t is not None and r.random() < 0.6:
+            return t
         return self.atom()
 
     def compose(self, depth):
